@@ -50,20 +50,50 @@ theorem pre_mono (items : List (Item K)) (h : ItemsOK items) (b : Nat) : ∀ d :
     obtain ⟨b1, b2, b3, b4⟩ := pre_step items h (b + d)
     exact ⟨le_trans a1 b1, le_trans a2 b2, le_trans a3 b3, le_trans a4 b4⟩
 
+/-- `computeAdjustmentRatio` without the exact-fit guard of bb6487a (the mathematical ratio) -/
+def adjRatio0 (P : Params K) (lineW : K) (it : Item K) (W Y Z aw ay az : K) : Option K :=
+  ratioCore P lineW (lineLen it W aw) (Y - ay) (Z - az) id
+
+/-- the guard is the identity: with `eps = 0` it only rewrites a value by itself -/
+theorem adjRatio_eps0 (P : Params K) (lineW : K) (it : Item K) (W Y Z aw ay az : K) (h : P.eps = 0) :
+    adjRatio P lineW it W Y Z aw ay az = adjRatio0 P lineW it W Y Z aw ay az := by
+  unfold adjRatio adjRatio0
+  have h1 : snapL P lineW (lineLen it W aw) = lineLen it W aw := by
+    unfold snapL
+    rw [h, zero_mul]
+    split
+    · rename_i hc
+      unfold absS at hc
+      simp only [k0] at hc
+      split at hc <;> linarith
+    · rfl
+  have h2 : snapR P = id := by
+    funext r
+    unfold snapR
+    rw [h]
+    split
+    · rename_i hc
+      unfold absS at hc
+      simp only [k0, k1] at hc
+      simp only [id, k1]
+      split at hc <;> linarith
+    · rfl
+  rw [h1, h2]
+
 /-- the node would be deactivated: ratio −∞ or below −1 -/
 def TooLong (o : Option K) : Prop := o = none ∨ ∃ r, o = some r ∧ r < -(k 1 : K)
 
 /-- too long at this break means: the least length of the line exceeds the line width -/
 theorem tooLong_imp (P : Params K) (lineW : K) (it : Item K) (W Y Z aw ay az : K)
     (hpen : it.ty = Ty.penalty → it.width = 0) (hY : ay ≤ Y) (hZ : az ≤ Z) (hinf : 0 < P.infinity)
-    (hW : 0 < lineW) (h : TooLong (adjRatio P lineW it W Y Z aw ay az)) :
+    (hW : 0 < lineW) (h : TooLong (adjRatio0 P lineW it W Y Z aw ay az)) :
     lineW < (W - aw) - (Z - az) := by
   have hL : (if it.ty = Ty.penalty then W - aw + it.width else W - aw) = W - aw := by
     split
     · rename_i hp; rw [hpen hp]; ring
     · rfl
-  unfold adjRatio at h
-  simp only [hL, k0, k1, beq_iff_eq] at h
+  unfold adjRatio0 ratioCore lineLen at h
+  simp only [hL, k0, k1, beq_iff_eq, id] at h
   unfold TooLong at h
   simp only [k1] at h
   by_cases h1 : W - aw < lineW
@@ -111,13 +141,13 @@ theorem tooLong_imp (P : Params K) (lineW : K) (it : Item K) (W Y Z aw ay az : K
 line width is too long -/
 theorem tooLong_of (P : Params K) (lineW : K) (it : Item K) (W Y Z aw ay az : K)
     (hw : 0 ≤ it.width) (hZ : az ≤ Z) (hinf : 0 < P.infinity)
-    (h : lineW < (W - aw) - (Z - az)) : TooLong (adjRatio P lineW it W Y Z aw ay az) := by
+    (h : lineW < (W - aw) - (Z - az)) : TooLong (adjRatio0 P lineW it W Y Z aw ay az) := by
   have hL : W - aw ≤ (if it.ty = Ty.penalty then W - aw + it.width else W - aw) := by
     split
     · linarith
     · exact le_refl _
-  unfold adjRatio TooLong
-  simp only [k0, k1, beq_iff_eq]
+  unfold adjRatio0 ratioCore lineLen TooLong
+  simp only [k0, k1, beq_iff_eq, id]
   generalize (if it.ty = Ty.penalty then W - aw + it.width else W - aw) = L at hL
   have h2 : lineW < L := by linarith
   rw [if_neg (by linarith), if_pos h2]
@@ -134,8 +164,11 @@ theorem tooLong_of (P : Params K) (lineW : K) (it : Item K) (W Y Z aw ay az : K)
 (without the width of the penalty) exceeds the line width -/
 theorem deact_imp (cx : Ctx K) (a : Node K) (hnf : isForced cx.P cx.it = false)
     (hY : a.d.y ≤ cx.Y) (hZ : a.d.z ≤ cx.Z) (hinf : 0 < cx.P.infinity) (hW : 0 < cx.lineW)
+    (hs : adjRatio cx.P cx.lineW cx.it cx.W cx.Y cx.Z a.d.w a.d.y a.d.z =
+      adjRatio0 cx.P cx.lineW cx.it cx.W cx.Y cx.Z a.d.w a.d.y a.d.z)
     (h : deactivates cx a (adjRatio cx.P cx.lineW cx.it cx.W cx.Y cx.Z a.d.w a.d.y a.d.z) = true) :
     cx.lineW < (cx.W - a.d.w) - (cx.Z - a.d.z) := by
+  rw [hs] at h
   unfold deactivates at h
   rw [hnf, Bool.or_false] at h
   by_cases hp : (cx.it.ty = Ty.penalty && !(cx.it.width == k 0)) = true
@@ -149,7 +182,7 @@ theorem deact_imp (cx : Ctx K) (a : Node K) (hnf : isForced cx.P cx.it = false)
       simpa using hp
     apply tooLong_imp cx.P cx.lineW cx.it cx.W cx.Y cx.Z a.d.w a.d.y a.d.z hpen hY hZ hinf hW
     unfold TooLong
-    cases hr : adjRatio cx.P cx.lineW cx.it cx.W cx.Y cx.Z a.d.w a.d.y a.d.z with
+    cases hr : adjRatio0 cx.P cx.lineW cx.it cx.W cx.Y cx.Z a.d.w a.d.y a.d.z with
     | none => exact Or.inl rfl
     | some r =>
       rw [hr] at h
